@@ -47,6 +47,8 @@ ENTS = [
     # (a common block declared in spub is global storage, documented with every unit that names it whatever proc_internals says: see `lcommon` below)
     # a module in a second source file: file-level metadata of the first file has no say there
     ("ovpub", "var", "public", True, "oth"), ("ovpriv", "var", "private", True, "oth"), ("ospriv", "proc", "private", True, "oth"), ("otpriv", "type", "private", True, "oth"),
+    # a BLOCK DATA unit (second file): its variables and types are filtered like a program's contents; undocumented ones go with hide_undoc
+    ("bdvar", "var", "public", True, "bd"), ("ubdvar", "var", "public", False, "bd"), ("bdtype", "type", "public", True, "bd"),
     # ... and what an internal procedure of the private procedure declares
     ("sprivin", "proc", "public", True, "spriv-inner"), ("nlinner", "namelist", "public", True, "spriv-inner"), ("nlinv", "var", "public", True, "spriv-inner"),
     ("nlpriv", "namelist", "public", True, "spriv"), ("lenum", "enumerator", "public", True, "spub"), ("lcommon", "common", "public", True, "spub-common"),
@@ -111,6 +113,8 @@ def other_source():
         return [f"{indent}!! {tracer(name)}"]
     L = (["module oth", "  !! TRCothx", "  implicit none", "  private :: ovpriv, ospriv, otpriv", "  integer :: ovpub"] + doc("ovpub") + ["  integer :: ovpriv"] + doc("ovpriv")
          + ["  type :: otpriv"] + doc("otpriv", "    ") + ["    integer :: oc", "  end type otpriv", "contains", "  subroutine ospriv()"] + doc("ospriv", "    ") + ["  end subroutine ospriv", "end module oth"])
+    L += ["block data bdunit", "  !! TRCbdunitx", "  integer, parameter :: bdvar = 1"] + doc("bdvar") + ["  integer, parameter :: ubdvar = 2", "  integer :: bdc", "  type bdtype"] + doc("bdtype", "    ") + ["    sequence", "    integer :: bq", "  end type bdtype",
+          "  common /bdblk/ bdc", "end block data bdunit"]
     return "\n".join(L) + "\n"
 
 
@@ -156,6 +160,8 @@ def expected_selection(display, proc_internals, hide_undoc, overrides):
         elif parent == "spriv":
             sel[name] = sel.get("spriv", False)  # nothing of an unselected procedure is documented
         elif parent == "oth":
+            sel[name] = shown(e, display)
+        elif parent == "bd":
             sel[name] = shown(e, display)
         elif parent == "spriv-inner":
             sel[name] = sel.get("spriv", False) and bool(proc_internals) and shown(e, d_lib)
@@ -278,7 +284,7 @@ def run_config(st: Stats, display, proc_internals, hide_undoc, overrides, search
                                  dict(feats, entity=f"tchild2%{comp}", kind="inherited comp", permission=perm, documented=True, parent="tchild2", leak="inherited"), inp,
                                  f"{comp} on type/tchild2.html: {shown_here}", f"shown iff {perm} is displayed for tchild2")
         # undocumented twins are identified by name in declaration tables
-        for name in ("uvpub", "uvpriv", "utpub", "ucpub", "uspub"):
+        for name in ("uvpub", "uvpriv", "utpub", "ucpub", "uspub", "ubdvar"):
             e = ents[name]
             # (a component of tpub is also listed, as inherited, with the type extending it in lib2)
             present = any(name in t for rel, t in alltext.items() if not (e[4] == "tpub" and rel in ("type/tchild2.html", "module/lib2.html")))
